@@ -52,4 +52,22 @@ probe("lib/lha_decoder.c", [
         printf("DEF decoder_block_size_%lu %llu\n", i, (unsigned long long) decoders[i].dtype->block_size);
         printf("DEF decoder_extra_size_%lu %llu\n", i, (unsigned long long) decoders[i].dtype->extra_size);
     }
+    printf("TABLE decoder_names_flat"); for (i = 0; i < sizeof(decoders) / sizeof(*decoders); ++i) { const unsigned char *s_ = (const unsigned char *) decoders[i].name; for (; *s_; ++s_) printf(" %u", (unsigned) *s_); } printf("\n");
+    printf("TABLE decoder_name_lens"); for (i = 0; i < sizeof(decoders) / sizeof(*decoders); ++i) printf(" %u", (unsigned) strlen(decoders[i].name)); printf("\n");
+    printf("TABLE decoder_type_ids"); for (i = 0; i < sizeof(decoders) / sizeof(*decoders); ++i) {
+        unsigned id = 99; LHADecoderType *t = decoders[i].dtype;
+        if (t == &lha_null_decoder) id = 0; if (t == &lha_lz5_decoder) id = 1; if (t == &lha_lzs_decoder) id = 2;
+        if (t == &lha_lh1_decoder) id = 3; if (t == &lha_lh4_decoder) id = 4; if (t == &lha_lh5_decoder) id = 5;
+        if (t == &lha_lh6_decoder) id = 6; if (t == &lha_lh7_decoder) id = 7; if (t == &lha_lhx_decoder) id = 8;
+        if (t == &lha_lk7_decoder) id = 9; if (t == &lha_pm1_decoder) id = 10; if (t == &lha_pm2_decoder) id = 11;
+        printf(" %u", id); } printf("\n");
     ''', None)])
+
+probe("lib/macbinary.c", [("macro", m, "mb_" + m) for m in
+      ["OUTPUT_BUFFER_SIZE", "MAC_TIME_OFFSET", "MBHDR_SIZE", "MBHDR_OFF_VERSION", "MBHDR_OFF_FILENAME_LEN",
+       "MBHDR_OFF_FILENAME", "MBHDR_LEN_FILENAME", "MBHDR_OFF_ZERO_COMPAT1", "MBHDR_OFF_ZERO_COMPAT2",
+       "MBHDR_OFF_DATA_FORK_LEN", "MBHDR_OFF_RES_FORK_LEN", "MBHDR_OFF_FILE_MOD_DATE", "MBHDR_OFF_COMMENT_LEN",
+       "MBHDR_OFF_MACBINARY2_DATA", "MBHDR_LEN_MACBINARY2_DATA"]]
+      + [("macro", "sizeof(((MacBinaryDecoder*)0)->mb_header)", "mb_header_extent"),
+         ("macro", "sizeof(MacBinaryDecoder)", "sizeof_MacBinaryDecoder"),
+         ("dtype", "macbinary_decoder_type", "macbinary")])
